@@ -8,6 +8,27 @@ import driver
 VERIF = driver.VERIF
 
 
+def build_library(repo):
+    """libnifly.a of the tree under check, with ASan/UBSan, cached by the tree stamp"""
+    bdir = os.path.join(driver.WORK, 'native_lib_' + driver.tree_stamp())
+    lib = os.path.join(bdir, 'src', 'libnifly.a')
+    if os.path.exists(lib):
+        return lib, ''
+    for d in os.listdir(driver.WORK) if os.path.isdir(driver.WORK) else []:
+        if d.startswith('native_lib_') and d != os.path.basename(bdir):
+            import shutil
+            shutil.rmtree(os.path.join(driver.WORK, d), ignore_errors=True)
+    flags = '-fsanitize=address,undefined -fno-sanitize-recover=undefined -O1 -g -Wno-error'
+    r = subprocess.run(['cmake', '-G', 'Ninja', '-S', repo, '-B', bdir, '-DCMAKE_BUILD_TYPE=RelWithDebInfo', '-DBUILD_TESTING=OFF', '-DCMAKE_CXX_FLAGS=' + flags],
+                       stdout=subprocess.PIPE, stderr=subprocess.STDOUT, text=True)
+    if r.returncode != 0:
+        return None, r.stdout[-2000:]
+    r = subprocess.run(['cmake', '--build', bdir, '-j', '16', '--target', 'nifly'], stdout=subprocess.PIPE, stderr=subprocess.STDOUT, text=True)
+    if r.returncode != 0 or not os.path.exists(lib):
+        return None, r.stdout[-3000:]
+    return lib, ''
+
+
 def run(unit, prop, values, outdir):
     spec = unit.get('replay', '').split()
     if not spec:
@@ -17,6 +38,11 @@ def run(unit, prop, values, outdir):
     repo = driver.REPO
     cmd = ['g++', '-std=c++17', '-O1', '-g', '-fsanitize=address,undefined', '-fno-sanitize-recover=undefined',
            '-I' + os.path.join(repo, 'include'), '-I' + os.path.join(repo, 'external'), src, '-o', exe]
+    if spec[0] in ('hdr_native',):
+        lib, err = build_library(repo)
+        if lib is None:
+            return {'verdict': 'no-replay', 'log': 'the library of the tree under check does not build:\n' + err, 'file': None}
+        cmd = cmd[:-2] + [lib, '-o', exe]
     r = subprocess.run(cmd, stdout=subprocess.PIPE, stderr=subprocess.STDOUT, text=True)
     if r.returncode != 0:
         return {'verdict': 'no-replay', 'log': 'replay program does not build against the tree under check:\n' + r.stdout[-3000:], 'file': None}
